@@ -153,7 +153,7 @@ def version_route(F, R):
     R.ob('C19.version-route', 'types::MQTT_LEVEL_3=4,MQTT_LEVEL_5=5', consts.get('MQTT_LEVEL_3') == 4 and consts.get('MQTT_LEVEL_5') == 5, 'constants %s' % consts)
 
 
-def setter_from(F, R, b, name, setter_pat, want_fields, arg_idx=1, root=None, key=None, announced=False):
+def setter_from(F, R, b, name, setter_pat, want_fields, arg_idx=1, root=None, key=None, announced=False, exact=True):
     sites = [(bi, t) for bi, t in b.calls_to(setter_pat)]
     hit = []
     for bi, t in sites:
@@ -168,7 +168,7 @@ def setter_from(F, R, b, name, setter_pat, want_fields, arg_idx=1, root=None, ke
     R.ob('C19.limits', key or name, bool(hit), '%s: no call of the enforcing setter whose argument derives from %s (found %d setter calls)' % (name, '.'.join(want_fields), len(sites)),
          b.loc(sites[0][0]) if sites else None)
     # "exactly the negotiated one": the stored value is the negotiated field itself, not a combination of it with something else
-    for bi in hit:
+    for bi in (hit if exact else []):
         t = b.blocks[bi]['term']
         og = Origin(b).of_operand(t['args'][arg_idx])
         mixed = sorted({(l[1] or '').split('::')[-1] for l in og if l[0] == 'call' and re.search(r'(^std::cmp::(min|max)$|::(min|max|clamp|saturating_\w+|wrapping_\w+|checked_\w+)$)', l[1] or '')} | {'operator ' + str(l[1]) for l in og if l[0] == 'binop' and l[1] not in ('Eq', 'Ne', 'Lt', 'Le', 'Gt', 'Ge')})
@@ -212,7 +212,7 @@ def limits(F, R):
     setter_from(F, R, b, 'v5-server|topic alias maximum <- ack.packet.topic_alias_max', r'^v5::shared::MqttShared::set_topic_alias_max$', ['packet', 'topic_alias_max'])
     setter_from(F, R, b, 'v5-server|inbound max size <- ack.packet.max_packet_size', r'^v5::codec::codec::Codec::set_max_inbound_size$', ['packet', 'max_packet_size'], announced=True)
     setter_from(F, R, b, 'v5-server|outbound max size <- CONNECT.max_packet_size', r'^v5::codec::codec::Codec::set_max_outbound_size$', ['max_packet_size'])
-    setter_from(F, R, b, 'v5-server|send window <- min(max_send, CONNECT.receive_max)', r'^v5::shared::MqttShared::set_cap$', ['max_send', 'receive_max'])
+    setter_from(F, R, b, 'v5-server|send window <- min(max_send, CONNECT.receive_max)', r'^v5::shared::MqttShared::set_cap$', ['max_send', 'receive_max'], exact=False)   # a minimum by definition (C05.cap-source)
     # announced keep-alive
     ka = False
     for bi, j, s in b.assigns():
@@ -271,7 +271,7 @@ def limits(F, R):
         R.ob('C19.limits', '%s|Handshake::ack keepalive <- CONNECT.keep_alive' % ver, ok, 'the default keep-alive does not depend on the client\'s keep_alive')
     b3 = F.one(HS['v3'])
     setter_from(F, R, b3, 'v3-server|inbound max size <- ack.max_packet_size', r'^v3::codec::codec::Codec::set_max_size$', ['max_packet_size'])
-    setter_from(F, R, b3, 'v3-server|send window <- ack.max_send|cfg.max_send', r'^v3::shared::MqttShared::set_cap$', ['max_send'])
+    setter_from(F, R, b3, 'v3-server|send window <- ack.max_send|cfg.max_send', r'^v3::shared::MqttShared::set_cap$', ['max_send'], exact=False)
     c5 = F.one(r'^v5::client::connector::MqttConnectorService::<A, T>::connect_inner::\{closure#0\}$')
     setter_from(F, R, c5, 'v5-client|outbound max size <- CONNACK.max_packet_size', r'^v5::codec::codec::Codec::set_max_outbound_size$', ['max_packet_size'])
     setter_from(F, R, c5, 'v5-client|inbound max size <- CONNECT.max_packet_size', r'^v5::codec::codec::Codec::set_max_inbound_size$', ['max_packet_size'])
